@@ -1,11 +1,15 @@
 """Single source for MANIFEST.json (bin/mkmanifest)."""
-HOOK_COMMITS = []
+HOOK_COMMITS = ["0ed9dd5"]
 
 CHECKS = [
     {"id": "C19",
      "text": "RFC 7959 section 2.2 written as TLA+ operators (specs/wire/BlockOpt.tla); TLC proves the spec-level inverse theorems over the whole 24-bit domain, and judges records of the REAL EncodeBlockOption/DecodeBlockOption/SZX.Size: explicit boundary/stratified/seeded records one by one and position-weighted digests of every 4096-value chunk of the complete domain (all 2^24 decoder values, all 8*2^20*2 encoder triples; thorough also all 2^32 decoder inputs). The domain is finite, so complete enumeration is the right level.",
      "note": "Trusted: TLC, the Json/IOUtils community modules, the Go recorder (no oracle inside), digest collision resistance (two primes). Quick judges a seeded subset of chunk digests; thorough judges all.",
      "technique": "TLA+ reference operators + TLC record validation over the complete domain (digests)"},
+    {"id": "C20",
+     "text": "RFC 7967 section 2.1 written as a TLA+ predicate (specs/wire/NoResponse.tla, sanity theorems checked by TLC over 256x256); TLC judges records of the REAL IsNoResponseCode over the complete 256x256 table (plus larger values), of ResponseWriter.SetResponse with and without the option, and of complete request/response exchanges on real udp/client.Conn (in-memory session, CON and NON) and tcp/client.Conn (scripted stream): suppressed => nothing but the bare ACK on the wire, not suppressed => exactly one response with the handler's code and the request token.",
+     "note": "Trusted: TLC, Json/IOUtils modules, the Go recorder, the library's own datagram/stream decoder used to READ emitted messages (judged separately by C01/C02). Wire level uses in-memory transports, not sockets.",
+     "technique": "TLA+ reference predicate + TLC record validation (complete table + end-to-end exchanges)"},
 ]
 
 _PENDING = "check not built yet in this round (pipeline exists, property not claimed until its check is registered)"
